@@ -77,11 +77,29 @@ def gen_one(rng, k):
     return s
 
 
+def gen_early(rng, k):
+    """the origin answers (complete, keep-alive capable final response) while the client pauses mid-body; a second
+    client then sends a request for the same origin: the half-sent upstream message must end by connection close"""
+    s = {"k": k, "early": True, "method": rng.choice(["POST", "PUT"]), "ver": "1.1", "framing": rng.choice(["cl", "cl", "chunked"]),
+         "seed": rng.randrange(1, 1 << 30), "splits": [], "gap": 0.0, "abort": None, "expect": False, "headsplit": False,
+         "status": rng.choice([403, 200, 401, 500])}
+    if s["framing"] == "cl":
+        s["sent"] = rng.choice([1, 10, 100, 1000, 5000])
+        s["n"] = s["sent"] + rng.choice([1, 10, 50, 90])     # less is missing than the next request is long
+    else:
+        s["n"] = rng.choice([20, 300, 5000])
+        s["chunks"] = [rng.choice([7, 100, 1000])]
+        s["ext"] = ""
+        s["trailer"] = []
+        s["frac"] = rng.choice([0.3, 0.5, 0.9])
+    return s
+
+
 def gen_scenarios(rng, n):
-    out = [gen_one(rng, k) for k in range(n)]
+    out = [gen_early(rng, k) if k % 20 == 7 else gen_one(rng, k) for k in range(n)]
     for start in range(15, n, 120):
         for s in out[start:start + 40]:
-            if not s.get("bad") and s["abort"] is None and s["ver"] == "1.1":
+            if not s.get("bad") and s["abort"] is None and s["ver"] == "1.1" and not s.get("early"):
                 if s["n"] < 700000:
                     s["n"] = 1048576 + rng.choice([-1, 0, 1])
                     s["splits"] = s["splits"][:3]
@@ -109,12 +127,14 @@ def client_bytes(s):
         if s.get("bad"):
             first = rc.chunk_encode(body[:max(1, s["chunks"][0])], s["chunks"], b"", b"", last=False)
             stream = first + b"ZZ\r\nxx\r\n0\r\n\r\n" if s["bad"] == "size" else first[:-2] + b"XX3\r\nabc\r\n0\r\n\r\n"
+    if s.get("early"):
+        stream = stream[:s["sent"]] if s["framing"] == "cl" else stream[:max(1, int(len(stream) * s["frac"]) - 1)]
     if s["abort"] is not None:
         cut = int(len(stream) * s["abort"])
         if cut >= len(stream):
             cut = len(stream) - 1
         stream = stream[:max(cut, 0)]
-    info = {"whole": s["abort"] is None and not s.get("bad")}
+    info = {"whole": s["abort"] is None and not s.get("bad") and not s.get("early")}
     out = (body, stream, info)
     if len(_cache) > 4000:
         _cache.clear()
@@ -148,6 +168,8 @@ def _one(args):
         hs += "Expect: 100-continue\r\n"
     hs += "\r\n"
     head = hs.encode()
+    if s.get("early"):
+        return _early(sq, org, s, rid, head, body, stream)
     aborting = not info["whole"] and s["abort"] is not None
     if s["expect"] or not s["headsplit"]:
         segs = rc.cut_segments(stream, s["splits"])
@@ -177,6 +199,55 @@ def _one(args):
     if a["framing"].startswith("cl:") and a["framing"] != "cl:%d" % len(body):
         fr = a["framing"]
     return "up fr=%s body=%s complete=1 arrivals=%d client=%s" % (fr, rc.crc(a["body"]), len(arr), client if info["whole"] else "-")
+
+
+def _early(sq, org, s, rid, head, body, stream):
+    import socket
+    if s["framing"] == "cl":
+        have = len(stream)
+    else:
+        have = len(rc.ref_dechunk(stream)[0])
+    url = org.url({"early": 1, "early_after": have, "status": s["status"], "body": "no"}, rid)
+    head = head.replace(org.url({}, rid).encode(), url.encode())
+    a = socket.create_connection(("127.0.0.1", sq.port), timeout=5)
+    try:
+        a.sendall(head)
+        time.sleep(0.1)
+        a.sendall(stream)
+        a.settimeout(0.1)
+        raw = b""
+        t0 = time.time()
+        while time.time() - t0 < 5.0:
+            r = rc.read_response(raw, False, s["method"])
+            if r["status"] is not None and r["complete"]:
+                break
+            try:
+                d = a.recv(65536)
+            except socket.timeout:
+                continue
+            except OSError:
+                break
+            if not d:
+                break
+            raw += d
+        time.sleep(0.3)      # client A is still paused, its connection still open
+        # client B: any request for the same origin
+        rb, rawb = lab.get(sq.port, org.url({}, rid + "b"), idle=0.5, total=3.0)
+    finally:
+        try:
+            a.close()
+        except OSError:
+            pass
+    arr = org.wait_arrival(rid, 5.0)
+    if not arr:
+        return "up complete=0 noeof"      # the origin is still waiting on an open connection for the rest of the body
+    x = arr[-1]
+    if x["bad"]:
+        return "up fr=bad body=%s arrivals=%d client=-" % (rc.crc(x["body"]), len(arr))
+    if not x["complete"]:
+        return "up complete=0" + ("" if body.startswith(x["body"]) else " notprefix") + ("" if len(arr) == 1 else " arrivals=%d" % len(arr)) \
+            + ("" if x["eof"] is True else " noeof")
+    return "up fr=%s body=%s complete=1 arrivals=%d client=-" % ("ok" if x["body"] == body else "changed", rc.crc(x["body"]), len(arr))
 
 
 def run_impl(L, scenarios):
@@ -227,8 +298,9 @@ def oracle(s, obs):
         return None
     if d.get("complete") == "1":
         return ("oracle:aborted-body-presented-complete",
-                "the client %s its body but the origin received a complete message: %s" %
-                ("aborted" if s["abort"] is not None else "malformed", obs))
+                "the client %s its body but the origin received a complete message (bytes the client never sent "
+                "were read as its body): %s" %
+                ("paused mid-body (origin answered early)" if s.get("early") else "aborted" if s["abort"] is not None else "malformed", obs))
     if "notprefix" in obs:
         return ("oracle:upstream-partial-body-not-a-prefix", obs)
     if "noeof" in obs:
@@ -238,6 +310,8 @@ def oracle(s, obs):
 
 def kind_fn(s, o):
     k = s["framing"] + "/" + s["ver"]
+    if s.get("early"):
+        return k + ":early-reply"
     if s.get("bad"):
         k += ":malformed"
     elif s["abort"] is not None:
@@ -369,7 +443,8 @@ def run(res, tier):
     res.rule = ("POST/PUT requests through the real squid to a raw-recording origin stub: Content-Length (HTTP/1.0 and 1.1) or "
                 "chunked (random chunk sizes 1..70000, extensions, trailers) bodies of 0..1 MB concentrated on 2K/4K/16K/32K/64K "
                 "(BodyPipe capacity) +-2, random client segmentation with pauses (head sent with or before the first body "
-                "bytes), client aborts at a random offset, malformed chunk framing, Expect: 100-continue; non-trivial = "
+                "bytes), client aborts at a random offset, malformed chunk framing, Expect: 100-continue, origin answering early "
+                "while the client pauses mid-body followed by a second request for the same origin; non-trivial = "
                 "non-empty body")
     std.run_lab(res, PID, tier, area="relay", gens=["relay"], gen_scenarios=gen_scenarios, run_impl=run_impl,
                 to_case=to_case, oracle=oracle, corr_name="RelayModel.rq_fair (upstream body, completeness) vs the running squid",
